@@ -47,10 +47,11 @@ func init() {
 				// the long-lived engine is always given the same queryable, like an embedding
 				// application that passes its one storage to every query
 				sess := shared
-				q, err := Create(eng, sess, nil, a.Query, a.Start, a.End, a.Step)
+				qo := QueryOpts(a.QLookback)
+				q, err := Create(eng, sess, qo, a.Query, a.Start, a.End, a.Step)
 				if err != nil {
 					// a fresh engine must reject it as well
-					_, err2 := Create(NewEngine(c.Lookback, c.Opt, true), st.Session(), nil, a.Query, a.Start, a.End, a.Step)
+					_, err2 := Create(NewEngine(c.Lookback, c.Opt, true), st.Session(), qo, a.Query, a.Start, a.End, a.Step)
 					if err2 == nil {
 						return violation("%sthe long-lived engine rejects the query (%v), a fresh engine accepts it", hdr(i), err)
 					}
@@ -70,7 +71,7 @@ func init() {
 						// a context cancelled before Exec: only a complete result would be acceptable
 						fs := st.Session()
 						fs.Shuffle = c.Shuffle
-						fresh, _ := Run(context.Background(), NewEngine(c.Lookback, c.Opt, true), fs, nil, a.Query, a.Start, a.End, a.Step)
+						fresh, _ := Run(context.Background(), NewEngine(c.Lookback, c.Opt, true), fs, qo, a.Query, a.Start, a.End, a.Step)
 						if fresh != nil && oracle.Equal(snap, fresh, tol) != "" {
 							return violation("%sExec with an already cancelled context returned a successful result that is not the complete result", hdr(i))
 						}
@@ -79,14 +80,14 @@ func init() {
 				}
 				fs := st.Session()
 				fs.Shuffle = c.Shuffle
-				fresh, ferr := Run(context.Background(), NewEngine(c.Lookback, c.Opt, true), fs, nil, a.Query, a.Start, a.End, a.Step)
+				fresh, ferr := Run(context.Background(), NewEngine(c.Lookback, c.Opt, true), fs, qo, a.Query, a.Start, a.End, a.Step)
 				evals++
 				if ferr != nil {
 					return violation("%sa fresh engine rejects the query (%v) that the long-lived engine accepted", hdr(i), ferr)
 				}
 				if d := oracle.Equal(snap, fresh, tol); d != "" {
 					_, expr, _ := ExprType(a.Query)
-					kc := &core.Case{Query: a.Query, Series: st.Dump(), Start: a.Start, End: a.End, Step: a.Step, Lookback: c.Lookback, Shuffle: c.Shuffle}
+					kc := &core.Case{Query: a.Query, Series: st.Dump(), Start: a.Start, End: a.End, Step: a.Step, Lookback: c.Lookback, QLookback: a.QLookback, Shuffle: c.Shuffle}
 					if expr != nil && TopkAmbiguous(kc, expr, st) {
 						continue
 					}
